@@ -260,3 +260,86 @@ Proof.
   rewrite (Nat.min_l lo) by lia.
   now apply cut_restore.
 Qed.
+
+(** ** the cursor the operators leave is a normal-mode cursor: in the text, and behind the last character of a line only
+    when that line is empty *)
+Lemma line_start_no_nl t : forall i j, (line_start_from t i <= j < i)%nat -> is_nl_at t j = false.
+Proof.
+  induction i as [|k IH]; intros j H; [lia|]. cbn [line_start_from] in H.
+  destruct (is_nl_at t k) eqn:E; [lia|].
+  destruct (Nat.eq_dec j k) as [->|N]; [exact E|]. apply IH. lia.
+Qed.
+
+Lemma find_nl_fix t : forall f i, (i < length t)%nat -> (0 < f)%nat -> is_nl_at t i = false -> find_nl t i f <> i \/ f = 1%nat.
+Proof.
+  intros f i Hi Hf Hn. destruct f as [|f]; [lia|]. cbn [find_nl].
+  destruct (Nat.leb_spec (length t) i); [lia|]. rewrite Hn.
+  destruct f as [|f]; [right; reflexivity|]. left.
+  pose proof (find_nl_bounds t (S f) (S i) ltac:(lia)). lia.
+Qed.
+
+Lemma line_end_on_char t q : (q < length t)%nat -> is_nl_at t q = false -> line_end t q <> q.
+Proof.
+  intros Hq Hn. unfold line_end.
+  destruct (find_nl_fix t (S (length t)) q Hq ltac:(lia) Hn) as [H|H]; [exact H|]. lia.
+Qed.
+
+Theorem settle_line_settled t p :
+  let q := settle_line t p in
+  (q <= length t)%nat /\ (q = line_end t q -> line_start_from t q = q).
+Proof.
+  cbv zeta. split; [apply settle_line_le|].
+  unfold settle_line. set (p' := Nat.min p (length t)).
+  destruct (Nat.eqb_spec p' (line_end t p')) as [E|E]; cbn [andb].
+  - destruct (Nat.ltb_spec (line_start_from t p') p') as [L|L].
+    + (* stepped back onto the last character of a non-empty line *)
+      intros Hq. exfalso.
+      assert (Hn : is_nl_at t (p' - 1) = false) by (apply (line_start_no_nl t p'); lia).
+      apply (line_end_on_char t (p' - 1)); [unfold p' in *; lia|exact Hn|symmetry; exact Hq].
+    + intros _. pose proof (line_start_le t p'). lia.
+  - intros Hq. congruence.
+Qed.
+
+(** after d with a characterwise range: such a cursor *)
+Theorem delete_char_cursor_settled ins s lo0 hi0 :
+  let s' := apply_op OpDelete ins s (RChar lo0 hi0) in
+  (o_cur s' <= length (o_text s'))%nat /\
+  (o_cur s' = line_end (o_text s') (o_cur s') -> line_start_from (o_text s') (o_cur s') = o_cur s').
+Proof. cbv zeta. cbn [apply_op o_cur o_text]. apply settle_line_settled. Qed.
+
+(** ** word text objects: the object starts at or before the cursor *)
+Lemma back_in_line_le f big t cls : forall p, (back_in_line f big t cls p <= p)%nat.
+Proof.
+  induction f as [|f IH]; intros p; cbn [back_in_line]; [lia|].
+  destruct (Nat.eqb p (line_start_from t p)); [lia|].
+  destruct p as [|q]; [lia|]. destruct (class_at big t q =? cls); [specialize (IH q); lia|lia].
+Qed.
+
+Lemma incl_start t lo hi : match incl t lo hi with RChar a _ => a = lo | RNone => True | _ => False end.
+Proof. unfold incl. destruct (Nat.leb _ lo); [exact I|reflexivity]. Qed.
+
+Theorem word_object_starts_before_cursor big include t i :
+  match word_object big include t i with
+  | RChar a _ => (a <= i)%nat
+  | RLines _ _ _ => False
+  | _ => True
+  end.
+Proof.
+  unfold word_object.
+  set (start := back_in_line (S (length t)) big t (class_at big t i) i).
+  assert (Hs : (start <= i)%nat) by apply back_in_line_le.
+  destruct (Bool.eqb (class_at big t start =? 0) include).
+  - destruct (end_word_obj big t start) as [e failed]. destruct failed; [exact I|].
+    pose proof (incl_start t start e) as H. destruct (incl t start e); try tauto. lia.
+  - set (e := Nat.max _ start).
+    destruct (include && negb (class_at big t e =? 0)).
+    + set (start' := if Nat.ltb (line_start_from t start) start then _ else start).
+      assert (Hs' : (start' <= start)%nat).
+      { unfold start'. destruct (Nat.ltb (line_start_from t start) start); [|lia].
+        cbv zeta.
+        pose proof (back_in_line_le (S (length t)) big t (class_at big t (start - 1)) (start - 1)) as B.
+        set (b := back_in_line (S (length t)) big t (class_at big t (start - 1)) (start - 1)) in *.
+        destruct ((class_at big t b =? 0) && Nat.ltb (line_start_from t b) b); lia. }
+      pose proof (incl_start t start' e) as H. destruct (incl t start' e); try tauto. lia.
+    + pose proof (incl_start t start e) as H. destruct (incl t start e); try tauto. lia.
+Qed.
